@@ -31,6 +31,13 @@ Theorem C11_P_monotone_in_future : forall Po Ph Pf1 Pf2, 0 <= Po <= 1 -> 0 <= Ph
 Proof. exact P_monotone_in_future. Qed.
 Print Assumptions C11_P_monotone_in_future.
 
+(** non-vacuity across a branch boundary: a wet-biased model (Ph = 2/5 > Po = 1/5); Pf = 3/10 falls in the scaling
+    branch (-> 3/20), Pf = 1/2 in the additive one (-> 3/10) *)
+Example C11_P_monotone_crosses_branches :
+  Qeq_bool (step6_P_obs_future (1 # 5) (2 # 5) (3 # 10)) (3 # 20) = true /\
+  Qeq_bool (step6_P_obs_future (1 # 5) (2 # 5) (1 # 2)) (3 # 10) = true.
+Proof. vm_compute. split; reflexivity. Qed.
+
 (** ... and so does the COUNT of values set to the bound, round(n * P) with Python's round-half-to-even, which is
     itself monotone (ties included) *)
 Theorem C11_round_monotone : forall q1 q2, q1 <= q2 -> (QL.round_half_even q1 <= QL.round_half_even q2)%Z.
